@@ -281,7 +281,7 @@ class Transactions(Driver):
                                  % (len(WITNESS_KINDS), ", 254" if tier == "thorough" else "", len(self.shapes)),
                           witness_kinds=list(WITNESS_KINDS) + (list(WITNESS_KINDS_MORE) if tier == "thorough" else []),
                           deviating_position="last input / last output",
-                          quick_reduction="3-input witness mixtures on BTC and LTC only" if tier == "quick" else "none")
+                          reduction="3-input witness mixtures on BTC and LTC only" if tier == "quick" else "deviation 3 on BTC and LTC, 2 on BCH/BTG/GRS")
 
     def units(self):
         for si, (n, ws) in enumerate(self.shapes):
@@ -292,7 +292,10 @@ class Transactions(Driver):
 
     def execute(self, unit):
         n, ws = self.shapes[unit["shape"]]
-        budget = self.k - (0 if unit["shape"] == 0 else 1)
+        k = self.k
+        if self.tier == "thorough" and unit["coin"] not in ("BTC", "LTC"):
+            k = 2       # BCH/BTG/GRS inherit parse and stream from the BTC class: deviation 3 on BTC and LTC only
+        budget = k - (0 if unit["shape"] == 0 else 1)
         # very wide transactions: the heavy 65 535 / 65 536-byte values stay (one script only), fine
         names = [a[0] for a in self.axes]
         base = {nm: al[0] for nm, al in self.axes}
